@@ -16,6 +16,12 @@ theorem skel_defaultConfig_shape :
 theorem skel_WithReconnectBackoff_shape :
     Generated.skel_WithReconnectBackoff = [
   "return func{…}",
+  "  if minDelay <= 0",
+  "    minDelay = 100 * time.Millisecond",
+  "  if maxDelay <= 0",
+  "    maxDelay = 5 * time.Second",
+  "  if maxDelay < minDelay",
+  "    maxDelay = minDelay",
   "  c.reconnectBackoff = backoff{ minDelay: minDelay, maxDelay: maxDelay, }"] := rfl
 
 /-- `WithPingInterval`. -/
